@@ -444,6 +444,13 @@ func (c *glCtx) binary(x *ast.BinaryExpr, rt types.Type) string {
 
 // conversion T(x)
 func (c *glCtx) convert(to types.Type, arg ast.Expr, n ast.Node) string {
+	if id, ok := ast.Unparen(arg).(*ast.Ident); ok && id.Name == "nil" {
+		z, ok := c.g.zero(to)
+		if !ok {
+			c.fail(n, "nil converted to %s", to)
+		}
+		return z
+	}
 	from := c.typeOf(arg)
 	if tv := c.p.TypesInfo.Types[arg]; tv.Value != nil {
 		// constant conversion: the compiler has checked representability
@@ -762,8 +769,23 @@ func (c *glCtx) stdlib(qn string, call *ast.CallExpr, n int) ([]string, bool) {
 	case "bytes.Reader.Len":
 		se := ast.Unparen(call.Fun).(*ast.SelectorExpr)
 		return []string{fmt.Sprintf("(Go.BytesReader.remaining %s)", c.expr(se.X))}, true
+	case "io.ByteReader.ReadByte":
+		se := ast.Unparen(call.Fun).(*ast.SelectorExpr)
+		if !isByteDecoder(c.typeOf(se.X)) && !isNamed(c.typeOf(se.X), "bytes", "Reader") {
+			c.fail(call, "ReadByte on %s", c.typeOf(se.X))
+		}
+		t := c.fresh("t")
+		c.emit("let %s ← Go.readByte %s", t, c.expr(se.X))
+		c.store(se.X, t+".1")
+		return []string{t + ".2"}, true
+	case "github.com/gagliardetto/binary.NewBorshDecoder":
+		return []string{fmt.Sprintf("(Go.BytesReader.mk %s 0)", c.expr(call.Args[0]))}, true
+	case "bytes.Buffer.WriteByte":
+		se := ast.Unparen(call.Fun).(*ast.SelectorExpr)
+		c.store(se.X, fmt.Sprintf("(%s ++ [%s])", c.expr(se.X), c.exprAs(call.Args[0], types.Typ[types.Uint8])))
+		return nil, true
 	case "io.ReadFull":
-		if !isNamed(c.typeOf(call.Args[0]), "bytes", "Reader") {
+		if !isNamed(c.typeOf(call.Args[0]), "bytes", "Reader") && !isByteDecoder(c.typeOf(call.Args[0])) {
 			c.fail(call, "io.ReadFull on %s", c.typeOf(call.Args[0]))
 		}
 		rd := c.expr(call.Args[0])
